@@ -122,6 +122,7 @@ func q(s string) string { return constant.MakeString(s).ExactString() }
 
 func runC09(c *Ctx, r *Report) {
 	importFoundation(c, r, "C09", "netconf-framing")
+	importFoundation(c, r, "C09", "read-loop")
 	r.Rule("C09/cleanup-keeps-error", "the deferred clean-up of Open closes the channel without replacing the error being returned", 1)
 	checkOpenCleanupKeepsError(c, r, "C09/cleanup-keeps-error")
 	r.Rule("C09/error-classes", "each failure site named by the property wraps the sentinel the property names (timeout / auth / connection / privilege / NETCONF / operation / platform error)", 3)
